@@ -64,6 +64,8 @@ type C10Case struct {
 	// WriteFaults / WriteDeadline: the trunk's Write fails with (0, err) and works again afterwards
 	WriteFaults   []C10WriteFault `json:"write_faults,omitempty"`
 	WriteDeadline *C10Deadline    `json:"write_deadline,omitempty"`
+	// Bursts: backlogs that approach the configured queue length, run after the traffic
+	Bursts []C10Burst `json:"bursts,omitempty"`
 	// Mixed: rounds of concurrent Open/Close of different ids on one end, run after the barrier rounds
 	Mixed *C10Mixed `json:"mixed,omitempty"`
 	// Ghosts: writes to connection ids that are not open at the receiving end (dropped by design)
@@ -88,12 +90,16 @@ func (c C10Case) qlenOf(side int) int {
 
 func (c C10Case) minQLen() int { return min(c.qlenOf(0), c.qlenOf(1)) }
 
+// genQLen draws a read queue length: small values, the whole range up to the package default
+// (256), the values around it and lengths above the default.
 func genQLen(t *rapid.T) int {
 	return rapid.OneOf(
 		rapid.IntRange(1, 4),
 		rapid.IntRange(1, 32),
+		rapid.SampledFrom([]int{257, 300, 512, 1024, 4096}),
 		rapid.IntRange(1, 256),
-		rapid.SampledFrom([]int{1, 2, 255, 256}),
+		rapid.SampledFrom([]int{1, 2, 3, 255, 256, 257}),
+		rapid.IntRange(257, 2000),
 	).Draw(t, "qlen")
 }
 
@@ -143,6 +149,7 @@ func genC10(t *rapid.T) C10Case {
 	c.Delays = genDelays(t, 6)
 	c.Rounds = genRounds(t, c.minQLen())
 	c.Mixed = genMixed(t)
+	c.Bursts = genBursts(t)
 	genWriteFaults(t, &c)
 	if rapid.IntRange(0, 1).Draw(t, "ghosts") == 0 {
 		c.Ghosts = rapid.SliceOfN(rapid.Custom(func(t *rapid.T) C10Ghost {
@@ -171,6 +178,9 @@ func genC10(t *rapid.T) C10Case {
 }
 
 func TestProp_C10(t *testing.T) {
+	if exhFailed.Load() {
+		t.Skip("the directed sweep already reported a violation")
+	}
 	if e := selfCheck(); e != "" {
 		ev.Get("C10").SetExtra("selfcheck_failed", e)
 		defer func() {
@@ -509,6 +519,15 @@ wait:
 		}
 	}
 
+	if len(c.Bursts) > 0 && r.fail == "" && !r.fatalFault.Load() {
+		if bad, stall := runBursts(c, r.p, alloc); bad != "" {
+			o := ev.Outcome{Classes: c10Classes(c), NonTrivial: c10NonTrivial(c), Fail: bad}
+			if stall {
+				o.History = map[string]any{"stacks": stacks()}
+			}
+			return o, stall
+		}
+	}
 	if c.Mixed != nil && r.fail == "" && !r.fatalFault.Load() {
 		ev.Get("C10").AddExtra("mixed_open_close_rounds", len(c.Mixed.Rounds))
 		if bad, stall := runMixedRounds(c, r.p, alloc); bad != "" {
@@ -885,8 +904,19 @@ func c10Classes(c C10Case) []string {
 		cls = append(cls, "qlen:1")
 	case c.minQLen() <= 16:
 		cls = append(cls, "qlen:2-16")
-	default:
+	case c.minQLen() <= 256:
 		cls = append(cls, "qlen:17-256")
+	default:
+		cls = append(cls, "qlen:above_default")
+	}
+	if max(c.qlenOf(0), c.qlenOf(1)) > defaultQLen {
+		cls = append(cls, "some_qlen_above_default")
+	}
+	for _, b := range c.Bursts {
+		cls = append(cls, "backlog_burst:"+b.Fill)
+		if c.qlenOf(b.Side&1) > defaultQLen {
+			cls = append(cls, "backlog_burst_above_default_qlen")
+		}
 	}
 	if multi {
 		cls = append(cls, "multi_frame_payload")
